@@ -16,7 +16,7 @@ DURS: List[List[Any]] = [
 ]
 GAPS = [0.0, 0.0, 0.0, EPS, 0.05, 0.1, 0.3, 0.3, 0.7, 1.3]
 EXCS = ["ValueError", "KeyError", "CustomError", "CustomBase", "KeyboardInterrupt", "SystemExit",
-        "CancelledError", "GeneratorExit", "TimeoutError", "OSError", "RuntimeError", "FalsyError", "EmptyLenError", "BadStrError"]
+        "CancelledError", "GeneratorExit", "TimeoutError", "OSError", "RuntimeError", "FalsyError", "EmptyLenError", "BadStrError", "TaskRejectedError"]
 VALUES: List[Any] = [None, 0, 1, -7, 3.5, "", "text", "ü∆", [1, 2, [3]], {"a": {"b": [1, None]}}, True, False,
                      [], {}, 2 ** 70, "x" * 300]
 
@@ -772,6 +772,10 @@ def gen_c04_spec(rng: random.Random, A: int, P: int) -> Dict[str, Any]:
         h = rng.choice(["pre_execute", "post_execute", "post_save"])
         spec["mws"] = [{h: {"async": rng.random() < 0.5, "raise": toks}}]
         spec["backend"]["fail"] = [f"m{i}" for i in range(len(msgs)) if rng.random() < 0.1]
+    elif rng.random() < 0.2:
+        # slow (well-behaved) middleware hooks: the message is being processed while they run
+        spec["mws"] = [{h: {"async": True, "lat": rng.choice([0.3, 1.0, 2.0]), "style": rng.choice(["async", "async", "awaitable", "task"])}
+                        for h in rng.sample(["pre_execute", "post_execute", "post_save", "on_error"], rng.randint(1, 2))}]
     if rng.random() < 0.1 and "stop_at" not in spec:
         spec["via"] = "api"
     if rng.random() < 0.3:
@@ -1039,6 +1043,9 @@ def gen_c06_spec(rng: random.Random, depth: int, maxmsgs: int) -> Dict[str, Any]
             order = [f"m{i}" for i in range(n)]
             rng.shuffle(order)
             spec["gather"] = order
+    elif rng.random() < 0.25 and not any(ts.get("progress") for ts in tasks.values()):
+        # redelivered / re-used task ids: two messages with one id (different content) in flight together or back to back
+        add_same_id_messages(rng, msgs, 0.4)
     spec["horizon"] = est_horizon(spec) + 5 * len(deps)
     return spec
 
@@ -1054,10 +1061,11 @@ class C06(WorkerCheck):
             "produced by that message and carries its labels; ack type and slow acks vary (a suspension between "
             "receiving and executing); in the in-memory mode the client collects results with taskiq.gather() over "
             "handles in its own order (k-th result must belong to the k-th handle); default task ids generated in 4 "
-            "processes forked after import must not collide. Non-trivial: >=2 executions overlapped in time and "
+            "processes forked after import must not collide; concurrent kiq() calls on one kicker / task object through a "
+            "suspending broker must each return a handle for their own message. Non-trivial: >=2 executions overlapped in time and "
             ">=1 dependency echo checked; distinct = distinct (kind, delivery) sequences.")
     floors = {"counters.echoes_checked": 3000, "events.dep_open": 500, "counters.gather_calls_checked": 50,
-              "counters.forked_ids_generated": 1000}
+              "counters.forked_ids_generated": 1000, "counters.shared_kicker_sends": 100}
     quick_cases = 2000
     thorough_cases = 40000
     assumptions = ["taskiq_dependencies 1.5.7 as installed in /venv is part of the system under observation"]
@@ -1093,10 +1101,23 @@ class C06(WorkerCheck):
         does) and in concurrent threads must not collide.  Real fork()s, shard 0 only."""
         if shard != 0:
             return {}
-        return fork_id_probe(4, 300 if tier == "quick" else 3000)
+        out: Dict[str, Any] = fork_id_probe(4, 300 if tier == "quick" else 3000)
+        r = shared_kicker_probe(60 if tier == "quick" else 1500, rng.randint(0, 10 ** 9))
+        first = r.pop("first", None)
+        out.update(r)
+        if first:
+            out["kicker_first::" + first[:300]] = 1
+        return out
 
     def post_merge(self, merged: Dict[str, Any]) -> None:
         c = merged["counters"]
+        if c.get("shared_kicker_mismatches", 0):
+            first = next((k.split("::", 1)[1] for k in c if k.startswith("kicker_first::")), "see counters")
+            slot = merged["violations"].setdefault("handle-bound-to-another-message", {"count": 0, "first": None})
+            slot["count"] += c["shared_kicker_mismatches"]
+            if slot["first"] is None:
+                slot["first"] = {"kind": "handle-bound-to-another-message", "msg": first, "detail": None,
+                                 "spec": {"mode": "shared-kicker-probe"}, "trace": None}
         if c.get("forked_id_collisions", 0):
             merged["violations"].setdefault("task-id-collision-across-processes", {"count": 0, "first": None})
             slot = merged["violations"]["task-id-collision-across-processes"]
@@ -1106,6 +1127,85 @@ class C06(WorkerCheck):
                                  "msg": f"{c['forked_id_collisions']} task ids produced by the default id generator were produced twice "
                                         "by sibling processes forked after taskiq was imported (two messages would share one result slot)",
                                  "detail": None, "spec": {"mode": "fork-id-probe"}, "trace": None}
+
+
+def shared_kicker_probe(rounds: int, seed: int) -> Dict[str, Any]:
+    """The handle kiq() returns is bound to the message that call sent.  One kicker object (task.kicker().with_labels())
+    or the task itself is used for several concurrent kiq() calls; broker.kick() and the pre_send hook suspend (as
+    every network broker does), so the calls interleave.  Every handle must have its own task id and yield the
+    result of its own arguments; post_send must see every message once."""
+    import asyncio as _aio
+
+    from taskiq import InMemoryBroker, TaskiqMiddleware
+
+    rng = random.Random(seed)
+    out: Dict[str, Any] = {"shared_kicker_sends": 0, "shared_kicker_mismatches": 0}
+
+    async def one_round() -> None:
+        plan = [rng.randint(0, 3) for _ in range(40)]
+
+        class Net(InMemoryBroker):
+            async def kick(self, message: Any) -> None:
+                for _ in range(plan[sum(map(ord, message.task_id)) % len(plan)]):
+                    await _aio.sleep(0)
+                await super().kick(message)
+
+        posts: List[str] = []
+
+        class Mw(TaskiqMiddleware):
+            async def pre_send(self, message: Any) -> Any:
+                for _ in range(plan[int(message.args[0]) % len(plan)]):
+                    await _aio.sleep(0)
+                return message
+
+            def post_send(self, message: Any) -> None:
+                posts.append(message.task_id)
+
+        broker = Net()
+        if rng.random() < 0.6:
+            broker.add_middlewares(Mw())
+
+        @broker.task(task_name="probe_sq")
+        async def sq(x: int) -> int:
+            await _aio.sleep(0)
+            return x * x + 1
+
+        n = rng.randint(2, 7)
+        how = rng.choice(["kicker", "kicker_labels", "task"])
+        if how == "task":
+            sends = [sq.kiq(i) for i in range(n)]
+        else:
+            k = sq.kicker() if how == "kicker" else sq.kicker().with_labels(group="batch")
+            sends = [k.kiq(i) for i in range(n)]
+        handles = await _aio.gather(*sends)
+        await broker.wait_all()
+        out["shared_kicker_sends"] += n
+        ids = [h.task_id for h in handles]
+        bad = None
+        if len(set(ids)) != n:
+            bad = f"{n} concurrent kiq() calls ({how}) returned handles for only {len(set(ids))} distinct task ids"
+        else:
+            for i, h in enumerate(handles):
+                res = await h.wait_result(check_interval=0.001, timeout=5)
+                if res.return_value != i * i + 1:
+                    bad = f"the handle returned by kiq({i}) ({how}) yields the result {res.return_value!r} of another message"
+                    break
+        if bad is None and broker.middlewares and sorted(posts) != sorted(ids):
+            bad = f"post_send saw messages {sorted(posts)} for handles {sorted(ids)} ({how})"
+        if bad:
+            out["shared_kicker_mismatches"] += 1
+            out.setdefault("first", bad)
+
+    for _ in range(rounds):
+        loop = _aio.new_event_loop()
+        try:
+            loop.run_until_complete(_aio.wait_for(one_round(), timeout=30))
+        except BaseException as exc:  # noqa: BLE001
+            out["shared_kicker_mismatches"] += 1
+            out.setdefault("first", f"concurrent kiq() round raised {exc!r}")
+        finally:
+            loop.close()
+    return out
 
 
 def fork_id_probe(nproc: int, per_proc: int) -> Dict[str, int]:
@@ -1175,6 +1275,8 @@ def gen_c07_spec(rng: random.Random) -> Dict[str, Any]:
         msgs.append(m)
     spec: Dict[str, Any] = {"cfg": {"A": rng.choice([1, 2, 4, None]), "P": rng.choice([0, 1])}, "msgs": msgs,
                             "end_stream": True, "backend": {"lat": rng.choice([0, "y", 0.05]), "fail": fail}}
+    if fail and rng.random() < 0.4:
+        spec["backend"]["fail_noargs"] = True
     if rng.random() < 0.3:
         # results also go into the bundled InmemoryResultBackend, with a small capacity
         spec["backend"]["stock"] = True
